@@ -26,14 +26,14 @@ var C = stream.ChunkSize
 // faultAt delivers data normally up to offset At, then fails: either in a call of its own (Together=false) or
 // together with the last bytes before At (Together=true). Once: the failure is transient.
 type faultAt struct {
-	data     []byte
-	pos      int
-	At       int
-	Together bool
-	Once     bool
-	Err      error
-	Fired    bool
-	fails    int
+	data           []byte
+	pos            int
+	At             int
+	Together       bool
+	Once           bool
+	Err            error
+	Fired          bool
+	fails          int
 	readsAfterFire int
 }
 
